@@ -101,8 +101,15 @@ def lattice_desc(features, rng):
         params = {"beta": 0.93, "utility": {"dis": 0.4}}
     if "no_choices" in F:
         choices = []
-        fns = {"utility": [["w", "h"], "xp.sqrt(w) + h"], "next_w": [["w", "r"], "(1 + r) * w"], "next_h": [["h"], "h"]}
-        params = {"beta": 0.93, "utility": {}, "next_w": {"r": 0.01}, "next_h": {}}
+        if any(s_ == "w" for s_, _ in states):
+            fns = {"utility": [["w", "h"], "xp.sqrt(w) + h"], "next_w": [["w", "r"], "(1 + r) * w"], "next_h": [["h"], "h"]}
+            params = {"beta": 0.93, "utility": {}, "next_w": {"r": 0.01}, "next_h": {}}
+        elif states:
+            fns = {"utility": [["h"], "0.3 * h"], "next_h": [["h"], "h"]}
+            params = {"beta": 0.93, "utility": {}, "next_h": {}}
+        else:
+            fns = {"utility": [["dis"], "dis * 1.0"]}
+            params = {"beta": 0.93, "utility": {"dis": 0.4}}
     snames = [s for s, _ in states]
     cnames = [c for c, _ in choices]
     if "mixed_discrete" in F and "h" in snames and "d" in cnames:
@@ -457,8 +464,17 @@ def run_case(case):
     else:
         desc, realised = pipeline.model_from_case(case)
         ref = Ref(desc)
-        feats = sorted(k for k, v in realised.items() if v and k in ("filters", "mixed_discrete", "stochastic", "excluded_states", "period_filter"))
-        o = run_accept(desc, res, add, "generated:" + ",".join(feats), rng, init=gen.gen_initial_states(rng, ref, 6, out_of_range=0.0))
+        # mechanism class of the generated model: is it inside the "supported" scope, and if
+        # not, why (the reference model's screening, never the seed)?
+        ok_s, reasons = ref.supported(ref.solve(desc["params"]))
+        cls = "supported" if ok_s else "unsupported:" + ",".join(sorted({r.split(":", 1)[1] for r in reasons}))
+        add("generated_" + ("supported" if ok_s else "unsupported"))
+        o = run_accept(desc, res, add, "generated_" + cls, rng, init=gen.gen_initial_states(rng, ref, 6, out_of_range=0.0))
+        if o == "violation" and not ok_s:
+            # exception type and frame depend on how many agents are affected: key by class + stage
+            v = res["violations"][-1]
+            stage = v["key"].split("|stage=")[1].split("|")[0]
+            v["key"] = f"accepted_but_fails|feature=generated_{cls}|stage={stage}"
         res["sig"] = f"acceptgen:{dsl.shape_signature(desc)}"
         res["distinct"] = 1
         res["sample"] = {"kind": "accept_generated", "signature": dsl.shape_signature(desc), "outcome": o}
